@@ -3,6 +3,7 @@
 From Coq Require Import Bool List NArith ZArith Lia.
 From M Require GFmtSpec.
 From M Require ILog.
+From M Require Tie.
 From M Require GFmt.
 From M Require GFmtSpec.
 Import ListNotations.
@@ -71,4 +72,13 @@ Theorem C16_sig_digits_nearest_closed :
 Proof. exact (@ILog.sig_digits_nearest_closed). Qed.
 End T_sig_digits_nearest_closed.
 Definition C16_sig_digits_nearest_closed := @T_sig_digits_nearest_closed.C16_sig_digits_nearest_closed.
+
+Module T_tie_float_formats. Import Tie. Local Open Scope bool_scope. Local Open Scope Z_scope.
+Local Open Scope Z_scope.
+Theorem C16_tie_float_formats :
+  Generated.gen_double_fmt = [115;110;112;114;105;110;116;102;40;40;115;41;44;32;40;108;41;44;32;34;37;46;49;53;108;103;34;44;32;40;118;41;41]%N /\
+  Generated.gen_float_fmt = [115;110;112;114;105;110;116;102;40;40;115;41;44;32;40;108;41;44;32;34;37;103;34;44;32;40;118;41;41]%N.
+Proof. exact (@Tie.tie_float_formats). Qed.
+End T_tie_float_formats.
+Definition C16_tie_float_formats := @T_tie_float_formats.C16_tie_float_formats.
 
